@@ -5,6 +5,12 @@ Implementation entry points driven (real code from $VERIF_REPO/src):
       get_volume_geometry(), get_volume(...) incl. sub-volume arguments,
       hd.Image.from_dataset(seg).get_volume(...) (base-class path),
   tiled Segmentation / slide Image .get_volume(...), get_volume_geometry(),
+  tiled Segmentation placed by the caller (hd.Volume in the SLIDE coordinate system, or
+      plane_positions=[top left corner] (+ plane_orientation / pixel_measures)) relative to a
+      source image with any Z offset: recorded TotalPixelMatrixOriginSequence, geometry,
+      get_volume, per-frame PlanePositionSlideSequence,
+  volumes whose affine lives in a caller-owned buffer (dtype / memory layout / entry point)
+      that the caller keeps using after the volume was constructed (histories),
   hd.seg.create_segmentation_pyramid(...),
   Image._standardize_slice_indices, Image._standardize_row_column_indices.
 Model: coq/theories/C03_Model.v; theorems: C03_Props.v.
@@ -35,9 +41,14 @@ MODELLED = ('image.py _standardize_slice_indices, _standardize_row_column_indice
             '(Volume -> plane positions/orientation/measures, aligned sources, empty-plane omission, slice-spacing '
             'inference), Segmentation.get_volume / get_volume_geometry; volume.py _prepare_getitem_index (unit step), '
             'from_attributes; spatial.py get_volume_positions (both branches, distinct positions), '
-            'create_affine_matrix_from_attributes; seg/pyramid.py level sizes and spacings (single source)')
+            'create_affine_matrix_from_attributes; seg/pyramid.py level sizes and spacings (single source); '
+            'seg/sop.py tile_pixel_array branch with a caller supplied position (origin_preserved / locations '
+            'preserved guards, which TotalPixelMatrixOriginSequence is recorded, refusals), '
+            'spatial.py compute_tile_positions_per_frame + omission of empty tiles (per-frame positions). '
+            'vol_hist cases are compared against the history-free model term (the model has value semantics: '
+            'aliasing of caller-owned buffers, dtypes and memory layouts are outside the model)')
 STRATA = ['std_slice', 'std_slice_err', 'std_rc', 'std_rc_err', 'vol', 'vol_sub', 'vol_sub_err', 'src', 'src_irregular',
-          'tiled', 'tiled_err', 'pyramid', 'pyramid_err']
+          'tiled', 'tiled_err', 'pyramid', 'pyramid_err', 'tiled_place', 'tiled_place_err', 'vol_hist']
 NOT_EXECUTED = ['pyramids built from several source images (spacings copied from the sources)',
                 'several focal planes in tiled images',
                 'get_volume with rtol/atol other than the defaults']
@@ -47,7 +58,14 @@ RULE = ('std_*: exhaustive small cube of (start, end, n, as_indices) in all argu
         'file round trip x Segmentation/Image API; vol_sub: every sub-volume argument form (1-based, 0-based, negative, '
         'None) in and out of range; src: aligned CT stacks in every slice order, with/without recorded spacing, '
         'irregular stacks; tiled: slide images/segmentations, all in-plane orientations, regions; pyramid: factors x '
-        'mask ranks. non-trivial = more than one slice/voxel or a refusal; distinct by case hash')
+        'mask ranks; tiled_place: every subset of {dx, dy, dz} non-zero between the caller\'s origin and the source\'s '
+        '(each subset at least once with everything else aligned, for both entry points) x source with/without Z '
+        'offset x same/other orientation, spacing, mask shape, tile size x Volume (both handednesses) / '
+        'plane_positions entry x omit x TILED_FULL/SPARSE; vol_hist: entry point (Volume, VolumeGeometry.with_array, '
+        'from_components) x affine buffer dtype/layout (float64 C/F/strided view/offset view, float32, int64, '
+        'big-endian) x what the caller does to the buffer afterwards (retarget, translate, scale, flip, swap, zero, '
+        'nothing) x writes through arrays returned by properties. '
+        'non-trivial = more than one slice/voxel or a refusal; distinct by case hash')
 EXHAUSTIVE = {'quick': False, 'thorough': False}
 
 # ---------------------------------------------------------------------------------------------
@@ -322,6 +340,116 @@ def _pyr_case(rng, bad):
             'spr': str(_sp(rng)), 'spc': str(_sp(rng)), 'origin': _fs([_dy(rng, 0, 200), _dy(rng, 0, 200)]), 'M': M}
 
 
+def _other_orient(rng, rc, cc, pool=None):
+    while True:
+        o = rng.choice(pool or _SLIDE_ORIENTS)
+        if o != (rc, cc):
+            return o
+
+
+def _place_case(rng, bad=False, combo=None, aligned=False, entry=None):
+    """Tiled segmentation whose total pixel matrix is placed by the caller (Volume in the SLIDE coordinate
+    system or plane_positions=[top left]) relative to a source image.  combo: bit i set = the caller's origin
+    differs from the source's in coordinate i (x, y, z); aligned: orientation, spacing, mask shape and tile
+    size are the source's (the 'spatial locations preserved' candidates)."""
+    R, C = rng.randint(2, 8), rng.randint(2, 8)
+    th, tw = rng.randint(1, 4), rng.randint(1, 4)
+    entry = entry or rng.choice(['volume', 'volume', 'positions'])
+    if bad:
+        entry = 'positions'
+    same_orient = aligned or rng.random() < 0.7
+    same_spacing = aligned or rng.random() < 0.7
+    same_shape = aligned or rng.random() < 0.75
+    combo = rng.randrange(8) if combo is None else combo
+    # the constructor compares decimal strings derived from floats: keep the one case whose OUTCOME depends
+    # on 'equal' (refusal of another mask shape at an otherwise identical placement) on exactly representable
+    # axis-aligned orientations
+    exact = (not same_shape) and same_orient and same_spacing and combo == 0
+    rc, cc = rng.choice(_SLIDE_ORIENTS[:8] if exact else _SLIDE_ORIENTS)
+    srcz = rng.choice([None, None, '0', str(_dy(rng, -8, 8, (1, 2, 4))), str(_dy(rng, 1, 40, (4, 8)))])
+    spr, spc = _sp(rng), _sp(rng)
+    origin = [_dy(rng, 0, 200), _dy(rng, 0, 200)]
+    d = [(_dy(rng, 1, 24, (1, 2, 4, 8)) * rng.choice([1, -1])) if (combo >> i) & 1 else F(0) for i in range(3)]
+    if same_orient:
+        u_rc, u_cc = rc, cc
+    else:
+        u_rc, u_cc = _other_orient(rng, rc, cc)
+    if same_spacing:
+        u_spr, u_spc = spr, spc
+    else:
+        u_spr, u_spc = rng.choice([(spr * 2, spc), (spr, spc / 2), (spc + F(1, 8), spr + F(1, 4))])
+    MR, MC = (R, C) if same_shape else rng.choice([(R + 1, C), (R, C - 1) if C > 2 else (R, C + 2),
+                                                   (rng.randint(1, 9), rng.randint(2, 9))])
+    if (MR, MC) == (R, C) and not same_shape:
+        MR += 1
+    if aligned:
+        tile = rng.choice([None, None, [th, tw]])
+    else:
+        tile = rng.choice([None, None, None, [th, tw], [rng.randint(1, 4), rng.randint(1, 4)]])
+    if entry == 'volume':
+        o_given = m_given = True
+        u_sbs = str(_sp(rng))
+    else:
+        o_given = (not same_orient) or rng.random() < 0.5
+        m_given = (not same_spacing) or rng.random() < 0.5
+        u_sbs = str(_sp(rng)) if (m_given and rng.random() < 0.5) else None
+    M = [[0] * MC for _ in range(MR)]
+    if rng.random() < 0.9:
+        for _ in range(rng.randint(1, max(1, MR * MC // 3))):
+            M[rng.randrange(MR)][rng.randrange(MC)] = 1
+        if rng.random() < 0.5:
+            M[0][MC - 1] = 1
+        if rng.random() < 0.5:
+            M[MR - 1][0] = 1
+    c = {'kind': 'tiled_place_err' if bad else 'tiled_place', 'R': R, 'C': C, 'th': th, 'tw': tw,
+         'rowcos': _fs(rc), 'colcos': _fs(cc), 'spr': str(spr), 'spc': str(spc), 'origin': _fs(origin),
+         'srcz': srcz, 'entry': entry, 'd': _fs(d), 'o_given': o_given, 'm_given': m_given,
+         'u_rowcos': _fs(u_rc), 'u_colcos': _fs(u_cc), 'u_spr': str(u_spr), 'u_spc': str(u_spc), 'u_sbs': u_sbs,
+         'flip0': entry == 'volume' and rng.random() < 0.4, 'MR': MR, 'MC': MC, 'M': M, 'tile': tile,
+         'typ': rng.choice(['BINARY', 'LABELMAP']), 'omit': rng.random() < 0.6, 'tiled_full': rng.random() < 0.35,
+         'file_rt': rng.random() < 0.3, 'api': rng.choice(['seg', 'seg', 'image']), 'npos': 1, 'pp': [1, 1]}
+    as_idx = rng.random() < 0.5
+    c['as_idx'] = as_idx
+    c.update({'ss': None, 'se': None, 'rs': None, 're': None, 'cs': None, 'ce': None})
+    if bad:
+        if rng.random() < 0.4:
+            c['npos'] = rng.choice([2, 3])
+        else:
+            c['pp'] = rng.choice([[2, 1], [1, 2], [th + 1, tw + 1], [1, tw + 1]])
+    elif rng.random() < 0.5:
+        for name, n in (('r', MR), ('c', MC)):
+            a = rng.randrange(n)
+            b = rng.randint(a + 1, n)
+            c[name + 's'] = _enc_bound(rng, a, n, as_idx, False)
+            c[name + 'e'] = _enc_bound(rng, b, n, as_idx, True)
+    return c
+
+
+_HIST_LAYOUTS = ['f8', 'f8', 'f8', 'f8_F', 'f8_view', 'f8_off', 'f4', 'i8', '>f8']
+
+
+def _hist_case(rng, entry=None, layout=None, mutate=None):
+    """A volume whose affine (or its components) was handed over in a caller-owned numpy buffer of some dtype /
+    memory layout, and a caller who goes on using that buffer (and arrays returned by properties of the
+    volume) between constructing the volume and encoding it."""
+    c = _vol_case(rng, 'vol_hist')
+    entry = entry or rng.choice(['Volume', 'Volume', 'VolumeGeometry', 'from_components'])
+    layout = layout or rng.choice(_HIST_LAYOUTS)
+    if layout in ('f4', 'i8'):
+        # values that such a buffer holds exactly
+        c['d'] = [_fs(v) for v in rng.choice(SIGNED_PERMS)]
+        if layout == 'i8':
+            c['sp'] = _fs([rng.randint(1, 9) for _ in range(3)])
+            c['pos'] = _fs([rng.randint(-400, 400) for _ in range(3)])
+    c['hist'] = {'entry': entry, 'layout': layout,
+                 'mutate': mutate or rng.choice(['retarget', 'translate', 'scale', 'flip', 'swap', 'zero', 'none']),
+                 'when': rng.choice(['before_array', 'after_array']),
+                 'shift': _fs([_dy(rng, -64, 64), _dy(rng, -64, 64), _dy(rng, 1, 64)]),
+                 'prop': rng.choice([None, None, 'affine', 'direction', 'position', 'spacing', 'geometry',
+                                     'inverse_affine'])}
+    return c
+
+
 # ---------------------------------------------------------------------------------------------
 # independent statement of the documented argument conventions
 # ---------------------------------------------------------------------------------------------
@@ -401,6 +529,22 @@ def gen_cases(rng, tier):
         cases.append(_pyr_case(rng, False))
     for _ in range(nv // 6):
         cases.append(_pyr_case(rng, True))
+    # ---- tiled segmentations placed by the caller ------------------------------------------------
+    # every subset of differing origin coordinates, everything else aligned with the source, both entry points
+    for combo in range(8):
+        for entry in ('volume', 'positions'):
+            cases.append(_place_case(rng, combo=combo, aligned=True, entry=entry))
+    for _ in range(nv):
+        cases.append(_place_case(rng))
+    for _ in range(nv // 6):
+        cases.append(_place_case(rng, bad=True))
+    # ---- caller-owned affine buffers and what happens to them afterwards ----------------------------
+    for entry in ('Volume', 'VolumeGeometry', 'from_components'):
+        for layout in sorted(set(_HIST_LAYOUTS)):
+            cases.append(_hist_case(rng, entry=entry, layout=layout,
+                                    mutate=rng.choice(['retarget', 'translate', 'scale', 'flip', 'swap', 'zero'])))
+    for _ in range((nv * 2) // 3):
+        cases.append(_hist_case(rng))
     return cases
 
 
@@ -444,7 +588,7 @@ def _kw(c):
     return kw
 
 
-def _build_seg(c):
+def _build_seg(c, info=None):
     """Segmentation for a 'vol*' or 'src*' case (real constructor)."""
     import numpy as np
     import highdicom as hd
@@ -459,13 +603,17 @@ def _build_seg(c):
         for k in range(3):
             A[:3, k] = np.array(d[k]) * sp[k]
         A[:3, 3] = [_f(x) for x in c['pos']]
+        chans = None
         if c['chan4d']:
             arr = np.stack([(lab == s + 1) for s in range(nseg)], axis=-1).astype(np.uint8)
-            pix = hd.Volume(arr, A, coordinate_system='PATIENT', frame_of_reference_uid=src[0].FrameOfReferenceUID,
-                            channels={'SegmentNumber': list(range(1, nseg + 1))})
+            chans = {'SegmentNumber': list(range(1, nseg + 1))}
         else:
             arr = lab
-            pix = hd.Volume(arr, A, coordinate_system='PATIENT', frame_of_reference_uid=src[0].FrameOfReferenceUID)
+        if c['kind'] == 'vol_hist':
+            pix, watch = _hist_volume(c, arr, A, src[0].FrameOfReferenceUID, chans)
+        else:
+            pix = hd.Volume(arr, A, coordinate_system='PATIENT', frame_of_reference_uid=src[0].FrameOfReferenceUID,
+                            channels=chans)
     else:
         rc, cc = [_f(x) for x in c['rowcos']], [_f(x) for x in c['colcos']]
         first = None
@@ -488,10 +636,104 @@ def _build_seg(c):
     kw = {}
     if typ == 'FRACTIONAL':
         kw['max_fractional_value'] = 1 if False else 255
+    if c['kind'] == 'vol_hist':
+        before = [w.copy() for w in watch] + [arr.copy()]
     seg = synth.make_seg(src, pix, typ, list(range(1, nseg + 1)), omit_empty_frames=c['omit'], **kw)
+    if c['kind'] == 'vol_hist' and info is not None:
+        # the encoder leaves the caller's buffers and pixel array as they were
+        after = list(watch) + [arr]
+        info['untouched'] = all(a.dtype == b.dtype and np.array_equal(a, b, equal_nan=True)
+                                for a, b in zip(after, before))
     if c['file_rt']:
         seg = synth.write_read(seg, hd.seg.segread)
     return seg
+
+
+def _layout_buffer(A, layout):
+    """the values of A in a caller-owned numpy array of the given dtype / memory layout"""
+    import numpy as np
+    if layout == 'f8':
+        return np.array(A, dtype=np.float64, order='C')
+    if layout == 'f8_F':
+        return np.array(A, dtype=np.float64, order='F')
+    if layout == 'f8_view':          # every other element of a larger array
+        big = np.full(tuple(2 * n for n in A.shape), 7.0)
+        buf = big[tuple(slice(None, None, 2) for _ in A.shape)]
+        buf[...] = A
+        return buf
+    if layout == 'f8_off':           # a window into a larger array (the caller's batch of affines)
+        big = np.full((3,) + A.shape, -3.0)
+        buf = big[1]
+        buf[...] = A
+        return buf
+    if layout == 'f4':
+        return np.array(A, dtype=np.float32)
+    if layout == 'i8':
+        return np.array(np.rint(A), dtype=np.int64)
+    if layout == '>f8':
+        return np.array(A, dtype='>f8')
+    raise ValueError(layout)
+
+
+def _hist_volume(c, arr, A, for_uid, chans):
+    """hd.Volume for a 'vol_hist' case: built through the chosen entry point from caller-owned buffers, which
+    the caller then goes on using; returns the volume and the buffers (to watch what the encoder does to them)"""
+    import numpy as np
+    import highdicom as hd
+    h = c['hist']
+    shift = np.array([_f(x) for x in h['shift']])
+    if h['entry'] == 'from_components':
+        sp = np.array([_f(x) for x in c['sp']])
+        direction = _layout_buffer(A[:3, :3] / sp[None, :], h['layout'])
+        position = _layout_buffer(A[:3, 3], h['layout'])
+        spacing = _layout_buffer(sp, h['layout'])
+        bufs = [direction, position, spacing]
+        vol = hd.Volume.from_components(arr, direction=direction, spacing=spacing, position=position,
+                                        coordinate_system='PATIENT', frame_of_reference_uid=for_uid, channels=chans)
+    else:
+        buf = _layout_buffer(A, h['layout'])
+        bufs = [buf]
+        if h['entry'] == 'Volume':
+            vol = hd.Volume(arr, buf, coordinate_system='PATIENT', frame_of_reference_uid=for_uid, channels=chans)
+        else:
+            geom = hd.VolumeGeometry(buf, arr.shape[:3], coordinate_system='PATIENT', frame_of_reference_uid=for_uid)
+            if h['when'] == 'after_array':
+                vol = geom.with_array(arr, channels=chans)
+
+    # ---- the caller re-uses its buffers ------------------------------------------------------------
+    m = h['mutate']
+    if h['entry'] == 'from_components':
+        lin, tr, scl = direction, position, spacing
+    else:
+        lin, tr, scl = buf[:3, :3], buf[:3, 3], None
+    if m == 'retarget':
+        tr[...] = shift.astype(tr.dtype)
+    elif m == 'translate':
+        tr[...] = (tr + shift).astype(tr.dtype)
+    elif m == 'scale':
+        if scl is not None:
+            scl[...] = scl * 2
+        else:
+            lin[...] = lin * 2
+    elif m == 'flip':
+        lin[:, 0] = -lin[:, 0]
+    elif m == 'swap':
+        lin[:, [1, 2]] = lin[:, [2, 1]]
+        if scl is not None:
+            scl[[1, 2]] = scl[[2, 1]]
+    elif m == 'zero':
+        for b in bufs:
+            b[...] = 0
+    if h['entry'] == 'VolumeGeometry' and h['when'] != 'after_array':
+        vol = geom.with_array(arr, channels=chans)
+
+    # ---- ... and writes into arrays that properties of the volume handed out ---------------------------
+    p = h['prop']
+    if p is not None:
+        got = vol.get_geometry().affine if p == 'geometry' else getattr(vol, p)
+        if isinstance(got, np.ndarray) and got.flags.writeable:
+            got[...] = got * 3 + 1
+    return vol, bufs
 
 
 def _get_vol(c, seg, kw):
@@ -513,6 +755,84 @@ def _build_sm(c, samples=3):
                           spacing=(_f(c['spr']), _f(c['spc'])), orientation=rc + cc)
 
 
+def _place_eff(c):
+    """effective (source origin, caller origin, row cosines, column cosines, spacings, slice spacing) of a
+    'tiled_place' case, exact"""
+    src_org = [F(c['origin'][0]), F(c['origin'][1]), F(c['srcz'] or 0)]
+    usr_org = [a + F(b) for a, b in zip(src_org, c['d'])]
+    rc = [F(x) for x in (c['u_rowcos'] if c['o_given'] else c['rowcos'])]
+    cc = [F(x) for x in (c['u_colcos'] if c['o_given'] else c['colcos'])]
+    spr = F(c['u_spr'] if c['m_given'] else c['spr'])
+    spc = F(c['u_spc'] if c['m_given'] else c['spc'])
+    sbs = F(c['u_sbs']) if (c['m_given'] and c['u_sbs'] is not None) else None
+    return src_org, usr_org, rc, cc, spr, spc, sbs
+
+
+def _run_place(c):
+    import numpy as np
+    import highdicom as hd
+    import synth
+    sm = _build_sm(c)
+    if c['srcz'] is not None:
+        sm.TotalPixelMatrixOriginSequence[0].ZOffsetInSlideCoordinateSystem = _f(c['srcz'])
+    src_org, usr_org, rc, cc, spr, spc, sbs = _place_eff(c)
+    MR, MC = c['MR'], c['MC']
+    mask = np.array(c['M'], np.uint8).reshape(1, MR, MC)
+    kw = {'tile_pixel_array': True, 'omit_empty_frames': c['omit'],
+          'dimension_organization_type': 'TILED_FULL' if (c['tiled_full'] and not c['omit']) else 'TILED_SPARSE'}
+    if c['tile'] is not None:
+        kw['tile_size'] = tuple(c['tile'])
+    org = [float(x) for x in usr_org]
+    if c['entry'] == 'volume':
+        rcv, ccv = np.array([float(x) for x in rc]), np.array([float(x) for x in cc])
+        A = np.eye(4)
+        A[:3, 0] = np.cross(ccv, rcv) * float(sbs) * (-1 if c['flip0'] else 1)
+        A[:3, 1] = ccv * float(spr)
+        A[:3, 2] = rcv * float(spc)
+        A[:3, 3] = org
+        pix = hd.Volume(mask, A, coordinate_system='SLIDE', frame_of_reference_uid=sm.FrameOfReferenceUID)
+    else:
+        pix = mask
+        col, row = c['pp'][1], c['pp'][0]
+        kw['plane_positions'] = [hd.PlanePositionSequence('SLIDE', image_position=org,
+                                                          pixel_matrix_position=(col, row))
+                                 for _ in range(c['npos'])]
+        if c['o_given']:
+            kw['plane_orientation'] = hd.PlaneOrientationSequence(
+                'SLIDE', image_orientation=[float(x) for x in rc + cc])
+        if c['m_given']:
+            kw['pixel_measures'] = hd.PixelMeasuresSequence(
+                pixel_spacing=(float(spr), float(spc)), slice_thickness=1.0,
+                spacing_between_slices=None if sbs is None else float(sbs))
+
+    def f():
+        seg = synth.make_seg([sm], pix, c['typ'], [1], **kw)
+        if c['file_rt']:
+            seg = synth.write_read(seg, hd.seg.segread)
+        it = seg.TotalPixelMatrixOriginSequence[0]
+        rec = [float(it.XOffsetInSlideCoordinateSystem), float(it.YOffsetInSlideCoordinateSystem),
+               float(it.get('ZOffsetInSlideCoordinateSystem', 0.0))]
+        if c['api'] == 'image':
+            obj = hd.Image.from_dataset(seg, copy=True)
+            vol = catch(lambda: _vol_out(obj.get_volume(dtype=np.float64, **_kw(c)), c['typ'] != 'LABELMAP'))
+        else:
+            obj = seg
+            vol = catch(lambda: _vol_out(obj.get_volume(combine_segments=True, **_kw(c))))
+        geo = _geom_out(obj.get_volume_geometry())
+        frames = None
+        if 'PerFrameFunctionalGroupsSequence' in seg:
+            frames = []
+            for item in seg.PerFrameFunctionalGroupsSequence:
+                pp = item.PlanePositionSlideSequence[0]
+                frames.append([int(pp.RowPositionInTotalImagePixelMatrix),
+                               int(pp.ColumnPositionInTotalImagePixelMatrix),
+                               float(pp.XOffsetInSlideCoordinateSystem), float(pp.YOffsetInSlideCoordinateSystem),
+                               float(pp.ZOffsetInSlideCoordinateSystem)])
+            frames.sort()
+        return [rec, geo, vol, frames]
+    return catch(f)
+
+
 def run_impl(c):
     _quiet()
     import numpy as np
@@ -524,8 +844,11 @@ def run_impl(c):
     if k in ('std_rc', 'std_rc_err'):
         return catch(lambda: list(hd.Image._standardize_row_column_indices(
             c['rs'], c['re'], c['cs'], c['ce'], c['rows'], c['cols'], c['ai'], c['oi'])))
+    if k in ('tiled_place', 'tiled_place_err'):
+        return _run_place(c)
     if k.startswith('vol') or k.startswith('src'):
-        seg = _build_seg(c)
+        info = {}
+        seg = _build_seg(c, info)
         if c['api'] == 'image':
             img = hd.Image.from_dataset(seg, copy=True)
             geo = catch(lambda: _geom_out(img.get_volume_geometry(allow_missing_positions=c['allow_missing'])))
@@ -534,6 +857,8 @@ def run_impl(c):
         binar = c['api'] == 'image' and c['typ'] != 'LABELMAP'
         full = catch(lambda: _vol_out(_get_vol(c, seg, {}), binar))
         sub = catch(lambda: _vol_out(_get_vol(c, seg, _kw(c)), binar))
+        if k == 'vol_hist':
+            return [geo, full, sub, info.get('untouched')]
         return [geo, full, sub]
     if k in ('tiled', 'tiled_err'):
         sm = _build_sm(c)
@@ -614,12 +939,25 @@ def coq_term(c):
     if k in ('std_rc', 'std_rc_err'):
         return (f"(run_std_rc {optz(c['rs'])} {optz(c['re'])} {optz(c['cs'])} {optz(c['ce'])} "
                 f"{zlit(c['rows'])} {zlit(c['cols'])} {_b(c['ai'])} {_b(c['oi'])})")
+    if k in ('tiled_place', 'tiled_place_err'):
+        src_org = [c['origin'][0], c['origin'][1], c['srcz'] or '0']
+        usr_org = [F(a) + F(b) for a, b in zip(src_org, c['d'])]
+        sbs = c['u_sbs'] if c['m_given'] else None
+        th, tw = c['tile'] or (c['th'], c['tw'])
+        with_frames = not (c['tiled_full'] and not c['omit'])
+        return (f"(run_tiled_place {_b(with_frames)} {_v3(src_org)} {_v3(usr_org)} {zlit(c['npos'])} "
+                f"{zlit(c['pp'][0])} {zlit(c['pp'][1])} {_b(c['o_given'])} {_v3(c['rowcos'])} {_v3(c['colcos'])} "
+                f"{_v3(c['u_rowcos'])} {_v3(c['u_colcos'])} {_b(c['m_given'])} {qlit(F(c['spr']))} "
+                f"{qlit(F(c['spc']))} {qlit(F(c['u_spr']))} {qlit(F(c['u_spc']))} {_optq(sbs)} "
+                f"{zlit(c['R'])} {zlit(c['C'])} {zlit(c['MR'])} {zlit(c['MC'])} {zlit(c['th'])} {zlit(c['tw'])} "
+                f"{zlit(th)} {zlit(tw)} {zll(c['M'])} {_b(c['omit'])} {_args(c)})")
     if k.startswith('vol'):
         d, sp = c['d'], c['sp']
         st = (f"(seg_from_volume {_v3(c['pos'])} {_v3(d[0])} {_v3(d[1])} {_v3(d[2])} "
               f"{qlit(F(sp[0]))} {qlit(F(sp[1]))} {qlit(F(sp[2]))} {zlit(c['R'])} {zlit(c['C'])} "
               f"{_planes(c['arr'])} {_b(c['omit'])})")
-        return f"(run_stored {_b(c['allow_missing'])} {st} {_args(c)})"
+        run = 'run_stored_hist' if k == 'vol_hist' else 'run_stored'
+        return f"({run} {_b(c['allow_missing'])} {st} {_args(c)})"
     if k.startswith('src'):
         ps = '[' + '; '.join(_v3(p) for p in c['positions']) + ']'
         st = (f"(seg_from_sources {ps} {_v3(c['rowcos'])} {_v3(c['colcos'])} {qlit(F(c['spr']))} {qlit(F(c['spc']))} "
@@ -765,6 +1103,89 @@ def _check_sub(c, full, sub, n0):
     return None
 
 
+def _oracle_place(c, out):
+    """a tiled segmentation placed by the caller: where the case description put every pixel of the mask
+    (caller's origin + r * row spacing * column cosines + c * column spacing * row cosines) against what was
+    recorded, what the image reports as its geometry, what get_volume returns and the per-frame positions"""
+    import numpy as np
+    src_org, usr_org, rc, cc, spr, spc, sbs = _place_eff(c)
+    malformed = c['npos'] != 1 or c['pp'] != [1, 1]
+    same_place = (usr_org == src_org and
+                  (not c['o_given'] or (c['u_rowcos'], c['u_colcos']) == (c['rowcos'], c['colcos'])) and
+                  (not c['m_given'] or (F(c['u_spr']), F(c['u_spc'])) == (F(c['spr']), F(c['spc']))))
+    other_shape = (c['MR'], c['MC']) != (c['R'], c['C'])
+    if isinstance(out, Err):
+        if malformed:
+            return None
+        if same_place and other_shape:
+            return None      # documented refusal: placed exactly on the source but of another size
+        return f'valid placement refused: {out}'
+    if malformed:
+        return 'more than one plane position / a position that is not the top left corner was accepted'
+    rec, geo, vol, frames = out
+    org = np.array([float(x) for x in usr_org])
+    rcv, ccv = np.array([float(x) for x in rc]), np.array([float(x) for x in cc])
+    spr, spc = float(spr), float(spc)
+    MR, MC = c['MR'], c['MC']
+
+    def where(r, col):
+        return org + r * spr * ccv + col * spc * rcv
+
+    def near(p, q):
+        return all(abs(a - b) <= 1e-6 * (1 + abs(b)) for a, b in zip(p, q))
+    if not near(rec, org):
+        return f'recorded total pixel matrix origin {rec}, the caller placed it at {org.tolist()}'
+    if geo is None or geo[0] != [1, MR, MC]:
+        return f'geometry {geo}'
+    G = np.array(geo[1])
+    for (r, col) in ((0, 0), (MR - 1, 0), (0, MC - 1), (MR - 1, MC - 1)):
+        p = G[:, 3] + r * G[:, 1] + col * G[:, 2]
+        if not near(p, where(r, col)):
+            return (f'reported geometry puts pixel {(r, col)} at {p.tolist()}, the caller placed it at '
+                    f'{where(r, col).tolist()}')
+    # get_volume: documented region, every returned voxel where the input put it
+    rr = _doc_range(c['rs'], c['re'], MR, c['as_idx'])
+    cr = _doc_range(c['cs'], c['ce'], MC, c['as_idx'])
+    if isinstance(vol, Err):
+        return f'documented region refused: {vol}'
+    shape, aff, arr = vol
+    if shape != [1, rr[1] - rr[0], cr[1] - cr[0]]:
+        return f'shape {shape} for region rows {rr} columns {cr}'
+    A = np.array(aff)
+    a = np.array(arr).reshape(shape)
+    Min = np.array(c['M'])[rr[0]:rr[1], cr[0]:cr[1]]
+    if not np.array_equal(a[0], Min):
+        return 'returned array is not the requested region of the mask'
+    for (i, j) in {(0, 0), (shape[1] - 1, shape[2] - 1)} | set(zip(*np.nonzero(Min))):
+        p = A[:, 3] + i * A[:, 1] + j * A[:, 2]
+        if not near(p, where(rr[0] + i, cr[0] + j)):
+            return (f'get_volume puts pixel {(rr[0] + i, cr[0] + j)} of the mask at {p.tolist()}, the caller '
+                    f'placed it at {where(rr[0] + i, cr[0] + j).tolist()}')
+    # per-frame positions: on the input AND on the geometry the image reports for itself
+    th, tw = c['tile'] or (c['th'], c['tw'])
+    if frames is not None:
+        seen = set()
+        for r1, c1, x, y, z in frames:
+            if (r1 - 1) % th or (c1 - 1) % tw or not (1 <= r1 <= MR and 1 <= c1 <= MC):
+                return f'frame at matrix position {(r1, c1)} is not on the {th} x {tw} tile grid'
+            seen.add((r1, c1))
+            if not near((x, y, z), where(r1 - 1, c1 - 1)):
+                return (f'frame at matrix position {(r1, c1)} recorded at {(x, y, z)}, the caller placed it at '
+                        f'{where(r1 - 1, c1 - 1).tolist()}')
+            p = G[:, 3] + (r1 - 1) * G[:, 1] + (c1 - 1) * G[:, 2]
+            if not near((x, y, z), p):
+                return (f'frame position {(x, y, z)} disagrees with the geometry the image reports '
+                        f'({p.tolist()})')
+        M = np.array(c['M'])
+        for r0 in range(0, MR, th):
+            for c0 in range(0, MC, tw):
+                if M[r0:r0 + th, c0:c0 + tw].any() and (r0 + 1, c0 + 1) not in seen:
+                    return f'non-empty tile at {(r0 + 1, c0 + 1)} has no frame'
+    elif not (c['tiled_full'] and not c['omit']):
+        return 'no per-frame positions in a TILED_SPARSE segmentation'
+    return None
+
+
 def oracle(c, out):
     import numpy as np
     k = c['kind']
@@ -787,7 +1208,15 @@ def oracle(c, out):
             want = [rr[0] + o, rr[1] + o, cr[0] + o, cr[1] + o]
             return None if list(out) == want else f'returned {out}, documented meaning {want}'
         return None
+    if k in ('tiled_place', 'tiled_place_err'):
+        return _oracle_place(c, out)
     if k.startswith('vol') or k.startswith('src'):
+        if k == 'vol_hist':
+            if not isinstance(out, list) or len(out) != 4:
+                return f'unexpected output {out}'
+            if out[3] is not True:
+                return 'encoding the segmentation modified the caller\'s affine buffer / pixel array'
+            out = out[:3]
         geo, full, sub = out
         if k == 'src_irregular':
             # no regular volume: must not invent one that moves voxels
@@ -896,6 +1325,8 @@ def nontrivial(c, out):
         return True
     if k.startswith('vol') or k.startswith('src'):
         return c['S'] > 1 and any(any(any(r) for r in pl) for pl in c['arr'])
+    if k.startswith('tiled_place'):
+        return c['MR'] * c['MC'] > 1
     if k.startswith('tiled'):
         return c['R'] * c['C'] > 1
     return True
@@ -907,6 +1338,16 @@ def shrink(c):
         for key in ('ss', 'se', 'rs', 're', 'cs', 'ce'):
             if c.get(key) is not None:
                 yield dict(c, **{key: None})
+        if k == 'vol_hist':
+            h = c['hist']
+            if h['prop'] is not None:
+                yield dict(c, hist=dict(h, prop=None))
+            if h['mutate'] not in ('none', 'retarget'):
+                yield dict(c, hist=dict(h, mutate='retarget'))
+            if h['mutate'] != 'none':
+                yield dict(c, hist=dict(h, mutate='none'))
+            if h['entry'] != 'Volume':
+                yield dict(c, hist=dict(h, entry='Volume'))
         if c.get('file_rt'):
             yield dict(c, file_rt=False)
         if c.get('chan4d'):
@@ -929,6 +1370,13 @@ def shrink(c):
         for key in ('ss', 'se', 'rs', 're', 'cs', 'ce'):
             if c.get(key) is not None:
                 yield dict(c, **{key: None})
+        if k == 'tiled_place':
+            if c.get('file_rt'):
+                yield dict(c, file_rt=False)
+            if c.get('flip0'):
+                yield dict(c, flip0=False)
+            if c.get('api') == 'image':
+                yield dict(c, api='seg')
     elif k.startswith('pyramid'):
         if len(c['fs']) > 1:
             for i in range(len(c['fs'])):
